@@ -27,6 +27,18 @@ EXPRS = [
     'TypeVar("T", bound="C")', 'NewType("N", int)', 'property(f)', 'staticmethod(f)', 'classmethod(g)', 'Version("pkg", 1, 2, 3)', 'Version(*v)',
 ]
 
+REGEXES = [
+    r"re.compile('abc')", r"re.compile(r'\d+(?P<name>[a-z]*)\1(?P=name)')", r"re.compile(r'(?(1)yes|no)')", r"re.compile(r'(a)(?(1)b|c)')", r"re.compile(r'(?P<n>x)?(?(n)y|z)')",
+    r"re.compile(r'(?=a)(?!b)(?<=c)(?<!d)')", r"re.compile(r'(?i)abc(?-i:d)')", r"re.compile(r'(?aiLmsux)x') ", r"re.compile(r'[a-z\d\]^-]+?[^\W_]*')", r"re.compile(r'a{2,5}?b{3}c{,4}d{1,}')",
+    r"re.compile('a{99999999999999999999999}')", r"re.compile('a{4294967296}')", r"re.compile('(')", r"re.compile('[')", r"re.compile('*')", r"re.compile('(?P<1>a)')", r"re.compile(r'\')",
+    r"re.compile(b'by\xfftes[\x00-\x1f]')", r"re.compile(rb'(?P<b>\d)')", r"re.compile('''multi\nline # c''', re.VERBOSE)", r"re.compile('a|b|', re.I | re.M)", r"re.compile(pattern='kw', flags=re.S)",
+    r"re.compile()", r"re.compile(*args)", r"re.compile(x)", r"re.compile(1)", r"re.compile('a', 'b', 'c')", r"re.compile(r'\A\b\B\Z^$.')", r"re.compile(r'(?:non)(cap)(?#comment)')",
+    r"re.compile(r'\x41\u00e9\U0001F600\N{DASH}\071\0')", r"re.compile('\ud800')", r"re.compile(r'(?>atomic)a*+b++c?+')", r"re.compile('(?s:.)(?P<a>(?P<b>x))')",
+    r"re.compile('[[:alpha:]]')", r"re.compile(r'[\w--[a]]')", r"re.compile('a' 'b')", r"re.compile('%s' % x)", r"re.compile(r'(a)|b(?(1)c)')", r"re.compile('(?x) a b # c')",
+]
+
+EXPRS += [r.strip() for r in REGEXES]
+
 DOCS = [
     'plain words here', '', ' ', 'Summary line.\n\n    Details.\n', 'L{C} and C{x} I{y} B{z} U{http://u}', 'L{unclosed', '@param x: the x\n@type x: int\n@return: r\n@rtype: C',
     '@param nope: missing\n@raise ValueError: v\n@ivar i: iv\n@cvar c: cv\n@see: that\n@note: n', '@unknownfield: u', ':param x: the x\n:type x: int\n:returns: r\n:rtype: `C`',
@@ -42,7 +54,7 @@ DECOS = ['property', 'staticmethod', 'classmethod', 'overload', 'typing.overload
          'deprecate.deprecated(Version("<p>", 1, 2, 3), replacement="<b>")', 'abc.abstractmethod', 'cached_property', 'functools.cached_property', 'd[0]', 'lambda f: f', '(yield)', 'a.b.c(1)(2)', 'dataclass', 'staticmethod()', 'classmethod']
 
 IMPORTS = [
-    'import dep', 'import dep as d', 'import os.path', 'import a.b.c as abc', 'from dep import Base', 'from dep import Base as B, X', 'from dep import *', 'from mod import *', 'from . import sib',
+    'import re', 'import re', 'import dep', 'import dep as d', 'import os.path', 'import a.b.c as abc', 'from dep import Base', 'from dep import Base as B, X', 'from dep import *', 'from mod import *', 'from . import sib',
     'from .sib import thing', 'from .. import up', 'from ...far import away as aw', 'from .... import *', 'from dep import nothere', 'from zope.interface import Interface, implementer, Attribute, classImplements, moduleProvides',
     'from zope import interface, schema', 'import zope.interface', 'import attr', 'import attrs', 'from attr import s, ib', 'from twisted.python.deprecate import deprecated, deprecatedProperty, deprecatedModuleAttribute',
     'from twisted.python import deprecate', 'from incremental import Version', 'from typing import *', 'from typing import TypeVar, Final, ClassVar, overload, Union, TYPE_CHECKING, TypeAlias, Literal', 'import typing', 'import typing as t',
